@@ -8,6 +8,10 @@ library's documented verification paths; ref.modes computes, for the RECEIVED
 (key, nonce, AAD, ct) at the configured tag length, the tag the specification
 defines.  Demanded:  library accepts  <=>  received tag == expected tag byte for
 byte;  accepted => returned plaintext == model plaintext;  rejected => ValueError.
+Every third received tuple is preceded (or the life of its object interrupted) by a
+NEIGHBOURING library object - same key and nonce with another tag length, neighbouring
+nonce, other key, identical twin - whose results are discarded: the verdict must not
+depend on what other objects the process created (Lib.decoy).
 
 KW / KWP (no nonce / AAD / tag) live in monitors/c01_kw.py: wrapped keys are built
 by the model's RAW wrap from deliberately malformed integrity values / plaintexts.
@@ -64,6 +68,10 @@ def finalize(agg, tier):
         for name in DECIDING:
             if not c.get("%s:%s" % (name, mode)):
                 out.append("deciding counter %s:%s is zero" % (name, mode))
+        if mode in AEAD_MODES and not c.get("decoys:" + mode):
+            out.append("no received tuple of mode %s was preceded by a neighbouring object" % mode)
+        if mode in ("gcm", "ccm", "eax", "ocb") and not (c.get("decoy:%s:other-maclen:before" % mode)):
+            out.append("no received tuple of mode %s was preceded by an object with another tag length" % mode)
     if not c.get("model_selftest_ok"):
         out.append("reference model self-test never ran")
     if tier == "thorough" and not c.get("bulk_cases"):
@@ -298,12 +306,55 @@ class Lib(object):
         n = rng.choice([1, 2, 2, 3, 4])
         return split_segments(rng, ct, n)
 
-    def run(self, path, key, nonce, aad, ct, tag, rng):
+    def decoy(self, key, nonce, rng):
+        """A NEIGHBOURING object is created and used through the library just before (or in the middle of the life of) the
+        object that is judged: same key and nonce with another tag length, the neighbouring nonce, another key with the same
+        nonce, or an identical twin.  Its results are discarded; the received tuple is still judged against the model for its
+        own parameters only, so anything the library remembers across objects (process-wide caches) shows up as a wrong
+        verdict.  -> variant name or None"""
+        cfg, mode, m = self.cfg, self.mode, self.mod
+        variant = rng.choice(["other-maclen", "other-maclen", "neighbour-nonce", "other-key", "twin"])
+        k2, n2, kw = key, nonce, {}
+        if mode != "siv" and mode != "chacha" and cfg["pass_mac_len"]:
+            kw["mac_len"] = cfg["mac_len"]
+        if variant == "other-maclen":
+            legal = [t for t in legal_maclens(cfg) if t != cfg["mac_len"]]
+            if not legal:
+                variant = "neighbour-nonce"
+            else:
+                kw["mac_len"] = rng.choice([legal[0], legal[-1], rng.choice(legal)])
+        if variant == "neighbour-nonce":
+            if nonce is None:
+                variant = "twin"
+            else:
+                n2 = nonce[:-1] + bytes([nonce[-1] ^ rng.choice([0x01, 0x3F, 0x40, 0x80])])
+        if variant == "other-key":
+            k2 = bytes([key[0] ^ 0x80]) + key[1:]
+            if cfg["cipher"] in ("DES", "DES3"):
+                k2 = key[:-1] + bytes([key[-1] ^ 0x10])
+        try:
+            if mode == "chacha":
+                d = m.new(key=k2, nonce=n2)
+            elif mode == "siv":
+                d = m.new(k2, m.MODE_SIV, **({"nonce": n2} if n2 is not None else {}))
+            else:
+                d = m.new(k2, getattr(m, "MODE_" + mode.upper()), nonce=n2, **kw)
+            d.update(b"decoy aad")
+            d.encrypt_and_digest(b"decoy plaintext, longer than one block..")
+        except Exception:       # noqa  (e.g. a weak DES key: the decoy is irrelevant to the verdict)
+            return None
+        return variant
+
+    def run(self, path, key, nonce, aad, ct, tag, rng, decoy=None):
         """-> ('ok', plaintext, obj, chunks) | ('exc', exception, obj, chunks)"""
         c = None
         parts = None
+        if decoy == "before":
+            self.last_decoy = self.decoy(key, nonce, rng)
         try:
             c = self.new(key, nonce, sum(len(a) for a in aad), len(ct))
+            if decoy == "between":
+                self.last_decoy = self.decoy(key, nonce, rng)
             for seg in aad:
                 c.update(seg)
             if path == "dav":
@@ -864,7 +915,12 @@ def run_aead(spec, ctx):
             else:
                 todo = [paths[(ncase + idx) % len(paths)]]
             for path in todo:
-                st, val, obj, parts = lib.run(path, k_, n_, a_, c_, tg, rng)
+                # every third received tuple is preceded (or its object's life interrupted) by a neighbouring object
+                dec = (None, "before", None, None, "between", None)[(idx + ncase + len(path)) % 6]
+                st, val, obj, parts = lib.run(path, k_, n_, a_, c_, tg, rng, decoy=dec)
+                if dec and getattr(lib, "last_decoy", None):
+                    ctx.count("decoys:%s" % mode)
+                    ctx.count("decoy:%s:%s:%s" % (mode, lib.last_decoy, dec))
                 judge(ctx, cfg, cdesc, base_w, kind, detail, path, k_, n_, a_, c_, tg, exp, mpt, valid, st, val, parts)
                 # ---- Decryption completed --verify()/hexverify()--> Decryption completed (documented self-loop)
                 if obj is not None and (idx + ncase) % 3 == 0 and exp is not None and (mode != "siv" or st == "ok") \
